@@ -18,21 +18,37 @@ CLAIM = dict(
          'meeting their contracts, so the conversion theorem holds with matrix_svd itself on those calls '
          '(C17_matrix_svd_exact_e0, C17_tt_to_qtt_denote_matrix_svd; uses property C02\'s step contract); '
          'a non-power-of-two mode size is rejected with ValueError before any factorisation '
-         '(C17_core_tt_to_qtt_rejects). PARTIAL: with real truncation (e > 0 cutting something, or a binding cap) the '
-         '"within the requested accuracy" clause is not proved; it is checked numerically by the search (dense reference). '
+         '(C17_core_tt_to_qtt_rejects). Genuine truncation, ONE TT-core (core_tt_to_qtt, mode size 2^d, d>=1, any boundary '
+         'ranks): over every commutative ring, if at each of the d factorisation calls that the run actually makes the '
+         'returned V has orthonormal rows and U = A V^T, then the squared Frobenius error of the returned chain against the '
+         'core (entries read at the little-endian digits of the mode index, open boundary indices) EQUALS the sum of the '
+         'squared residuals |A_k - U_k V_k|^2 of those calls (C17_core_tt_to_qtt_error; Pythagoras holds although Y[0] is '
+         'multiplied by V0 after the loop, because V0 and all later V are isometries on row spaces), and it is the distance '
+         'to the core that core_qtt_to_tt rebuilds (C17_core_err2_merged); at the reals, under property C02\'s weaker step '
+         'contract (rows of V orthogonal, of norm 1 or 0) the error is <= that sum (C17_core_tt_to_qtt_error_le_R), so if '
+         'every residual is <= e^2 the Frobenius distance is <= sqrt(d) e (C17_core_tt_to_qtt_error_R, _proj_R), and this '
+         'holds with the MODEL of matrix_svd itself, same e and r at every call, for every eigh / argsort routine meeting '
+         'their contracts, non-empty boundary ranks and a cap above r1*n so that it never binds '
+         '(C17_core_tt_to_qtt_error_matrix_svd); non-vacuity: a run over Qc in which both calls cut something '
+         '(C17_trunc_error_example). PARTIAL: the whole-tensor bound for tt_to_qtt over several cores (how the per-core '
+         'errors combine through the neighbouring, non-orthogonalised cores) is not proved, nor is the case of a binding '
+         'cap; both are checked numerically by the search (dense reference). '
          'Mode size 1 (= 2^0) is outside the model (teneva returns a malformed core or raises depending on parity).',
     note='Trusted: Coq kernel, vm_compute for case evaluation, the hand-written models (validated by the correspondence: '
          'index maps exhaustively for q*d<=8 (12 thorough) plus a malformed stream; qtt_to_tt exactly on integer cores (Z '
          'instance); tt_to_qtt at the PrimFloat instance with the recorded matrix_svd outputs replayed by (core, call) number, '
          'cores compared to 1e-12), numpy ravel/unravel/reshape/tensordot/hstack semantics as re-expressed in the models. '
          'matrix_svd is an oracle here (its own contract is property C02); IEEE rounding is outside the theorems.',
-    technique='Coq proof (induction over digits; loop invariant of the halving sweep over an abstract ring) + exhaustive / '
+    technique='Coq proof (induction over digits; loop invariant of the halving sweep over an abstract ring; Pythagoras '
+              'per projection step, one induction over an abstract comparison instantiated by = and by <= on R) + exhaustive / '
               'exact / replayed model-implementation correspondence + dense reference search')
 TRUSTED = ['Coq 8.16.1 kernel + vm_compute (case evaluation only)',
            'hand-written models Model/GridInd.v, Model/Qtt.v tied to grid.py / core.py / act_one.py by the correspondence',
            'np.unravel_index / np.ravel_multi_index semantics (order=F) as modelled by bits_le / unbits_le',
            'oracle contract fac_ok (A = U V, shapes) for teneva.matrix_svd in the exact-conversion theorems; its outputs are '
-           'recorded and replayed in the correspondence, and validated numerically (residual) on every recorded call']
+           'recorded and replayed in the correspondence, and validated numerically (residual) on every recorded call',
+           'oracle contracts trunc_ok (V V^T = I, U = A V^T) / fact_ok (property C02) in the one-core error theorems; for the '
+           'model of matrix_svd they are derived from the eigh / argsort contracts (Proofs/TruncP5.v svd_contract)']
 HEADER = ('From Coq Require Import List ZArith.\nFrom TV Require Import Num.Ops Model.GridInd.\n'
           'Import ListNotations.\n'
           'Definition showR (r : result (list (list nat))) : list (list nat) := '
